@@ -213,6 +213,16 @@ func (c *vclient) post(s *vsession, data string, cmid uint64) (int, []byte, erro
 	return code, b, err
 }
 
+func (c *vclient) postFrom(s *vsession, data string, cmid uint64, forwardedFor string) (int, []byte, error) {
+	body, _ := json.Marshal(struct {
+		Data            string
+		ClientMessageId uint64
+	}{data, cmid})
+	code, b, _, err := c.do("POST", "/robustirc/v1/"+s.Id+"/message", map[string]string{"X-Session-Auth": s.Auth, "Content-Type": "application/json",
+		"X-Bridge-Auth": "1234567890abcdef1234567890abcdef", "X-Forwarded-For": forwardedFor}, body)
+	return code, b, err
+}
+
 func (c *vclient) postRaw(s *vsession, body []byte) (int, []byte, error) {
 	code, b, _, err := c.do("POST", "/robustirc/v1/"+s.Id+"/message", map[string]string{"X-Session-Auth": s.Auth, "Content-Type": "application/json"}, body)
 	return code, b, err
